@@ -566,6 +566,14 @@ func (ss *sessState) doStep(i int, st *plan.Step) (obs string) {
 		}
 		o := fmt.Sprintf("%s err=%q val=%s", st.Op, normErr(err), DumpValue(p.Elem()))
 		ss.keepValue(i, "decoded value", p)
+		if st.Probe == "scribble_spare" {
+			// the caller appends to the byte slices it was given (writes into
+			// their spare capacity): nothing else may change
+			if n := scribbleSpare(p.Elem(), 0); n > 0 {
+				CountN("scribble_spare_bytes", int64(n))
+			}
+			ss.checkKept(i)
+		}
 		if st.Probe == "mutate_input" {
 			Count("mutate_input_after")
 			for k := range data {
@@ -681,6 +689,8 @@ func (ss *sessState) doStep(i int, st *plan.Step) (obs string) {
 					sb.WriteString(" | ")
 				}
 				sb.WriteString(short(part))
+				// what Extract hands out is the caller's: later calls must not change it
+				ss.keepBytes(i, "extracted part", part)
 			}
 			return fmt.Sprintf("path_extract err=%q n=%d parts=%s", normErr(err), len(parts), sb.String())
 		case "path_unmarshal":
@@ -689,6 +699,7 @@ func (ss *sessState) doStep(i int, st *plan.Step) (obs string) {
 			data, tail := spareCopy(st.Doc)
 			err := p.Unmarshal(data, dst.Interface(), decOpts(st)...)
 			ss.checkInput(i, st, data, tail)
+			ss.keepValue(i, "value decoded through a path", dst)
 			return fmt.Sprintf("path_unmarshal err=%q val=%s", normErr(err), DumpValue(dst.Elem()))
 		default:
 			var src interface{}
@@ -820,6 +831,55 @@ func clipS(s string, n int) string {
 		return s[:n]
 	}
 	return s
+}
+
+// scribbleSpare writes a marker into the spare capacity (len..cap) of every
+// byte slice reachable from v, as a caller appending to it would.
+func scribbleSpare(v reflect.Value, depth int) (n int) {
+	if depth > 8 || !v.IsValid() {
+		return 0
+	}
+	switch v.Kind() {
+	case reflect.Ptr, reflect.Interface:
+		if v.IsNil() {
+			return 0
+		}
+		return scribbleSpare(v.Elem(), depth+1)
+	case reflect.Struct:
+		for i := 0; i < v.NumField(); i++ {
+			n += scribbleSpare(v.Field(i), depth+1)
+		}
+	case reflect.Array:
+		for i := 0; i < v.Len(); i++ {
+			n += scribbleSpare(v.Index(i), depth+1)
+		}
+	case reflect.Map:
+		it := v.MapRange()
+		for it.Next() {
+			n += scribbleSpare(it.Value(), depth+1)
+		}
+	case reflect.Slice:
+		if v.IsNil() {
+			return 0
+		}
+		if v.Type().Elem().Kind() == reflect.Uint8 {
+			if b, ok := v.Interface().([]byte); ok || v.CanConvert(reflect.TypeOf([]byte(nil))) {
+				if !ok {
+					b = v.Convert(reflect.TypeOf([]byte(nil))).Bytes()
+				}
+				full := b[:cap(b)]
+				for i := len(b); i < len(full); i++ {
+					full[i] = 0xEE
+					n++
+				}
+			}
+			return n
+		}
+		for i := 0; i < v.Len(); i++ {
+			n += scribbleSpare(v.Index(i), depth+1)
+		}
+	}
+	return n
 }
 
 // ---------------------------------------------------------------- O3: kept values
